@@ -76,6 +76,7 @@ pub fn base(prop: &str, seed: u64, max_blocks: u64, max_peers: u64) -> Base {
         n_types: rng.range(0, 2) as usize,
         ext_extra_pct: pick(&mut rng, &[0u64, 20, 100]),
         trend: pick(&mut rng, &[0u64, 0, 0, 1, 2, 3]),
+        recommit: false,
     };
     let blocks_cap = if pow == PowKind::Eaglesong {
         max_blocks.min(120)
@@ -298,7 +299,56 @@ fn gen_c05_like(seed: u64, prop: &str) -> Plan {
     finish(b, until, 400_000)
 }
 
+/// Honest reorgs near a check-point boundary: every peer follows a shallow fork (shallower than
+/// the check-point interval and than last-N) that replaces the block at a boundary, then the
+/// chain grows by several intervals so that the client asks for check points starting at
+/// whatever it kept from before the fork.
+fn gen_c05_reorg(seed: u64) -> Plan {
+    let mut b = base("C05", mix(&[seed, 0x5e05]), 120, 3);
+    let interval = pick(&mut b.rng, &[4u64, 8, 8, 16]);
+    b.plan.knobs.check_point_interval = interval;
+    b.plan.knobs.last_n = pick(&mut b.rng, &[5u64, 10, 10, 100]);
+    b.plan.chain.max_txs = b.plan.chain.max_txs.max(1);
+    b.plan.initial_blocks = b.plan.initial_blocks.max(2 * interval + 1);
+    for p in b.plan.peers.iter_mut() {
+        if p.hashes_batch < 33 {
+            p.hashes_batch = 2000;
+        }
+    }
+    connect_all(&mut b, 3_000);
+    let t_fork = b.rng.range(40_000, 150_000);
+    let mut t = b.rng.range(5_000, 20_000);
+    while t < t_fork {
+        add(&mut b.plan, t, Action::Mine { branch: 0, n: 1 });
+        t += b.rng.range(6_000, 25_000);
+    }
+    let back = b.rng.range(1, (interval - 1).min(b.plan.knobs.last_n).min(6));
+    let n = back + b.rng.range(1, 3);
+    add(&mut b.plan, t_fork, Action::Fork { src: 0, back, n });
+    for p in 0..b.plan.peers.len() {
+        let at = t_fork + b.rng.range(1, 4_000);
+        add(&mut b.plan, at, Action::SwitchBranch { peer: p, branch: 1 });
+    }
+    let until = t_fork + 3 * interval * 22_000 + b.rng.range(0, 60_000);
+    let mut t = t_fork + b.rng.range(8_000, 25_000);
+    while t < until {
+        add(&mut b.plan, t, Action::Mine { branch: 1, n: 1 });
+        t += b.rng.range(8_000, 30_000);
+    }
+    if b.rng.chance(1, 2) {
+        let at = b.rng.range(0, t_fork);
+        let tip = b.plan.initial_blocks;
+        let scripts = random_scripts(&mut b, 3, tip);
+        add(&mut b.plan, at, Action::User(UserOp::SetScripts { cmd: SetCmd::All, scripts }));
+    }
+    b.plan.flags = vec!["honest".into(), "expect_converge".into(), "main=1".into(), "fork".into()];
+    finish(b, until, 400_000)
+}
+
 fn gen_c05(seed: u64) -> Plan {
+    if mix(&[seed, 0xc05d]) % 6 == 0 {
+        return gen_c05_reorg(seed);
+    }
     gen_c05_like(seed, "C05")
 }
 
@@ -663,6 +713,32 @@ fn gen_c10(seed: u64) -> Plan {
             t += b.rng.range(20_000, 60_000);
         }
     }
+    if b.rng.chance(1, 3) {
+        // the attacker also answers the client's own proof requests: honest answers whose
+        // totals / numbers sit at the arithmetic boundary, or structurally altered ones
+        for _ in 0..b.rng.range(1, 6) {
+            let kind = pick(&mut b.rng, &[1u32, 1, 2, 3]);
+            let op = if b.rng.chance(2, 3) { 2000 } else { b.rng.below(14) as u32 };
+            let m = MutSpec { kind, ordinal: b.rng.below(6), op, seed: b.rng.next_u64() };
+            b.plan.peers[attacker].mutations.push(m);
+        }
+        for _ in 0..b.rng.range(1, 5) {
+            let at = b.rng.range(500, until);
+            let op = if b.rng.chance(1, 2) {
+                UserOp::FetchHeader(HashRef::Block { branch: 0, number: b.rng.range(0, tip) })
+            } else {
+                UserOp::FetchTransaction(HashRef::Tx { branch: 0, number: b.rng.range(0, tip), k: b.rng.below(3) })
+            };
+            add(&mut b.plan, at, Action::User(op));
+        }
+    }
+    if b.rng.chance(1, 4) {
+        // made-up headers with boundary numbers: the user fetches a hash the attacker handed out
+        for _ in 0..b.rng.range(1, 4) {
+            let at = b.rng.range(4_000, until);
+            add(&mut b.plan, at, Action::Inject { peer: attacker, spec: InjectSpec { seed: b.rng.next_u64(), kind: 103 } });
+        }
+    }
     b.plan.flags = vec!["byz".into(), "no_ban_reconnect_delay".into()];
     if b.rng.chance(1, 3) {
         // pending transactions, relay opens / closes, and protocol-open events that race with
@@ -961,7 +1037,83 @@ fn gen_c07(seed: u64) -> Plan {
 }
 
 /// fetch_header / fetch_transaction / get_transaction polled over time under honest-net faults.
+/// A fetch is registered for a transaction that filter sync then indexes; a shallow fork
+/// re-commits the transaction at another height; the (delayed) proven answer arrives after the
+/// switch and names the new place; the new chain's block at the old height gets stored.
+fn gen_c16_recommit(seed: u64) -> Plan {
+    let mut b = base("C16", mix(&[seed, 0x5ec0]), 60, 2);
+    b.plan.chain.recommit = true;
+    b.plan.chain.max_txs = b.plan.chain.max_txs.max(2);
+    b.plan.initial_blocks = b.plan.initial_blocks.max(12);
+    let np = b.plan.peers.len();
+    for p in 0..np {
+        // the first answers to the fetch get lost
+        for i in 0..b.rng.range(1, 2) {
+            b.plan.peers[p].mutations.push(MutSpec { kind: 3, ordinal: i, op: 1001, seed: b.rng.next_u64() });
+        }
+    }
+    connect_all(&mut b, 1_000);
+    let until = b.rng.range(120_000, 260_000);
+    let tip = b.plan.initial_blocks;
+    let scripts: Vec<(ScriptRef, u64)> = (0..b.plan.chain.n_locks).map(|i| (ScriptRef::Lock(i), 0)).collect();
+    add(&mut b.plan, 1, Action::User(UserOp::SetScripts { cmd: SetCmd::All, scripts }));
+    let back = b.rng.range(1, b.plan.knobs.last_n.min(6).max(1));
+    let n = back + b.rng.range(1, 4);
+    if b.plan.knobs.check_point_interval <= 2 * back + 2 {
+        b.plan.knobs.check_point_interval = 2000;
+    }
+    let t = b.rng.range(40_000, 100_000);
+    add(&mut b.plan, t, Action::Fork { src: 0, back, n });
+    for p in 0..np {
+        let at = t + b.rng.range(1, 10_000);
+        add(&mut b.plan, at, Action::SwitchBranch { peer: p, branch: 1 });
+    }
+    let mut tm = t + b.rng.range(10_000, 30_000);
+    while tm < until + 30_000 {
+        add(&mut b.plan, tm, Action::Mine { branch: 1, n: 1 });
+        tm += b.rng.range(15_000, 40_000);
+    }
+    // the abandoned blocks' transactions: asked for before sync reaches them, polled afterwards
+    for _ in 0..b.rng.range(1, 4) {
+        let number = tip.saturating_sub(b.rng.range(0, back.saturating_sub(1)));
+        let href = HashRef::Tx { branch: 0, number, k: b.rng.range(0, 2) };
+        add(&mut b.plan, b.rng.range(2, 2_000), Action::User(UserOp::FetchTransaction(href.clone())));
+        let mut at = b.rng.range(3_000, t);
+        while at < until + 150_000 {
+            let op = if b.rng.chance(1, 2) { UserOp::GetTransaction(href.clone()) } else { UserOp::FetchTransaction(href.clone()) };
+            add(&mut b.plan, at, Action::User(op));
+            at += b.rng.range(5_000, 50_000);
+        }
+    }
+    if b.rng.chance(1, 2) {
+        // the scripts that made filter sync index those transactions are dropped before the
+        // fork (nothing re-indexes them on the new branch), and the user fetches the headers
+        // of the new branch at the abandoned heights
+        let keep = b.rng.usize_below(b.plan.chain.n_locks);
+        let at = b.rng.range(t * 3 / 4, t);
+        add(&mut b.plan, at, Action::User(UserOp::SetScripts { cmd: SetCmd::All, scripts: vec![(ScriptRef::Lock(keep), tip)] }));
+        for _ in 0..b.rng.range(2, 6) {
+            let number = tip.saturating_sub(b.rng.range(0, back.saturating_sub(1)));
+            let at = t + b.rng.range(11_000, 60_000);
+            add(&mut b.plan, at, Action::User(UserOp::FetchHeader(HashRef::Block { branch: 1, number })));
+        }
+    }
+    // peers dropped for an unanswered request come back
+    for p in 0..np {
+        let mut at = b.rng.range(30_000, 70_000);
+        while at < until {
+            add(&mut b.plan, at, Action::Connect { peer: p });
+            at += b.rng.range(20_000, 70_000);
+        }
+    }
+    b.plan.flags = vec!["honest".into(), "fetch".into(), "main=1".into(), "fork".into()];
+    finish(b, until, 200_000)
+}
+
 fn gen_c16(seed: u64) -> Plan {
+    if mix(&[seed, 0xc16d]) % 6 == 0 {
+        return gen_c16_recommit(seed);
+    }
     let mut b = base("C16", seed, 160, 3);
     connect_all(&mut b, 3_000);
     let until = b.rng.range(40_000, 160_000);
